@@ -34,7 +34,7 @@ CAN_OUT = {'VideoIn': True, 'Util': True, 'Filter': True, 'VideoOut': False, 'We
 SUFFIXES = ['', '?', '??', ';main', ';a>b;c', '!opt', ';t?', ';x!no-y']
 
 
-def mk_scenario(nmax, planted=None, with_ipc=True, classes=CLASSES, suffixes=SUFFIXES, fixed_classes=None, nmin=1):
+def mk_scenario(nmax, planted=None, with_ipc=True, classes=CLASSES, suffixes=SUFFIXES, fixed_classes=None, nmin=1, light=False):
     def scenario(e):
         STATE['tokens'] = toks = {}
         def token(si):
@@ -48,14 +48,14 @@ def mk_scenario(nmax, planted=None, with_ipc=True, classes=CLASSES, suffixes=SUF
             return toks[d] if d in toks else int(d)
         n = nmin + (e.choice('nfilters', nmax - nmin + 1) if nmax > nmin else 0)
         gsuf = suffixes[e.choice('suffix', len(suffixes))]          # one suffix form per command line
-        gempty = e.choice('emptyform', 2); gunset = e.choice('unsetform', 2)
+        gempty, gunset = (0, 0) if light else (e.choice('emptyform', 2), e.choice('unsetform', 2))
         ipc = bool(e.choice('ipc', 2)) if with_ipc else False
         specs = []; argv = []
         for i in range(n):
             cls = fixed_classes[i] if fixed_classes else classes[e.choice(f'cls{i}', len(classes))]
             spec = {'cls': cls, 'id': None, 'sources': 'absent', 'outputs': 'absent', 'src_text': None, 'out_text': None}
             args = [cls]
-            if e.choice(f'hasid{i}', 2):
+            if not (light and i == n - 1) and e.choice(f'hasid{i}', 2):      # (light: the last filter, which nothing refers to, keeps its default id)
                 spec['id'] = f'f{i}'; args.append(f'--id=f{i}')
             sk = e.choice(f'src{i}', 4 if i else 2)       # 0 absent (auto chain), 1 empty, 2 id reference (+suffix), 3 explicit address
             if sk == 0 and gunset: args.append('--sources=')      # documented: an empty string means "not set at all"
@@ -193,8 +193,8 @@ def harnesses(tier):
                   bounds={'filters': 3, 'classes': 'VideoIn, Util, VideoOut in this order', **bounds}, functions=fn, stubs=stubs, assumptions=assume,
                   budget_s=900 if q else 3000)]
     if not q:
-        hs.append(Harness('c12.parse_filters.chain4', mk_scenario(4, nmin=4, suffixes=SUFFIXES[:1], with_ipc=False, fixed_classes=['VideoIn', 'Util', 'Filter', 'VideoOut']),
-                          bounds={'filters': 4, 'classes': 'VideoIn, Util, Filter, VideoOut', **bounds, 'suffixes': [''], '--ipc': 'off'}, functions=fn, stubs=stubs, assumptions=assume, budget_s=3000))
+        hs.append(Harness('c12.parse_filters.chain4', mk_scenario(4, nmin=4, suffixes=SUFFIXES[:1], with_ipc=False, fixed_classes=['VideoIn', 'Util', 'Filter', 'VideoOut'], light=True),
+                          bounds={'filters': 4, 'classes': 'VideoIn, Util, Filter, VideoOut', **bounds, 'suffixes': [''], '--ipc': 'off', 'forms': 'one spelling of empty / unset; the sink keeps its default id'}, functions=fn, stubs=stubs, assumptions=assume, budget_s=3000))
     return hs
 
 
